@@ -2,7 +2,7 @@ From Coq Require Import Extraction ExtrOcamlBasic.
 From BV Require Import lib.ExtractBase lib.Ints gen.Params_gen model.SerBase model.SerTx model.Codec model.CodecMoney.
 Extraction "model.ml" extract_base
   write_compact_size read_compact_size write_varint read_varint
-  ser_bytes unser_bytes ser_tx unser_tx strip_witness has_witness
+  ser_bytes unser_bytes ser_tx unser_tx strip_witness has_witness ser_header unser_header ser_block unser_block
   hex_str try_parse_hex hex_normal hex_digit is_space
   convert_bits encode_base64 decode_base64 encode_base32 decode_base32 b64_value b32_value
   encode_base58 decode_base58 b58_value
